@@ -140,17 +140,22 @@ Proof.
     rewrite D1. set (ci5 := exec F o [] IReadIds (fst ci4) (snd ci4)).
     destruct (i_res (snd ci5)) eqn:E6.
     + rewrite (settle_finished _ _ _ _ E6). rewrite (drive_finished' _ _ _ _ _ _ E6). unfold obs; simpl. symmetry. apply surjective_pairing.
-    + rewrite (surjective_pairing ci5) at 3.
-      apply drive_plan; [apply plan_not_readids | exact E6 | ].
-      pose proof (plan_length o (i_ver (snd ci5)) (i_ids (snd ci5)) ms). lia.
+    + match goal with |- obs (drive ?k _) = _ =>
+        assert (Hk : List.length (plan o (i_ver (snd ci5)) (i_ids (snd ci5)) ms) <= k)
+          by (pose proof (plan_length o (i_ver (snd ci5)) (i_ids (snd ci5)) ms); simpl; lia);
+        pose proof (drive_plan F (plan o (i_ver (snd ci5)) (i_ids (snd ci5)) ms) (fst ci5) (snd ci5) k
+                      (plan_not_readids _ _) E6 Hk) as H
+      end.
+      rewrite <- surjective_pairing in H. exact H.
 Qed.
 
 Lemma steps_single : forall n c p,
   steps o ms (repeat 0 n) (mkSys c [p]) = mkSys (fst (drive n (c, p))) [snd (drive n (c, p))].
 Proof.
   induction n as [|n IH]; intros c p; [reflexivity|].
-  simpl repeat. unfold steps. simpl fold_left. fold (steps o ms (repeat 0 n)).
-  unfold sys_step at 1. simpl. rewrite IH. reflexivity.
+  simpl repeat. unfold steps in *. simpl fold_left.
+  assert (E : sys_step o ms (mkSys c [p]) 0 = mkSys (fst (pstep o ms [] c p)) [snd (pstep o ms [] c p)]) by reflexivity.
+  rewrite E, IH. simpl drive. rewrite <- surjective_pairing. reflexivity.
 Qed.
 End Solo.
 
@@ -161,7 +166,8 @@ Theorem steps_single_is_run : forall F o ms d n,
   let s := steps o ms (repeat 0 n) (init_sys_faults [F] d) in
   s_db s = fst (run F o ms d) /\ map p_inst (s_insts s) = [snd (run F o ms d)].
 Proof.
-  intros F o ms d n Hn s. unfold s, init_sys_faults. simpl map at 2.
-  rewrite steps_single. simpl.
-  rewrite <- (drive_is_run o ms F d n Hn). unfold obs. simpl. split; reflexivity.
+  intros F o ms d n Hn s.
+  assert (E : s = mkSys (fst (drive o ms n (d, mkP inst0 prelude F))) [snd (drive o ms n (d, mkP inst0 prelude F))])
+    by (unfold s, init_sys_faults; simpl map; apply steps_single).
+  rewrite E. simpl. rewrite <- (drive_is_run o ms F d n Hn). unfold obs. simpl. split; reflexivity.
 Qed.
